@@ -12,6 +12,9 @@ assert subprocess.run(["git", "-C", "/repo", "status", "--porcelain"], capture_o
 r = subprocess.run(["git", "-C", "/repo", "apply", f"{base}/patch.diff"], capture_output=True, text=True)
 if r.returncode != 0:
     print("PATCH DID NOT APPLY", r.stderr); sys.exit(3)
+import shutil, tempfile
+EVID_BACKUP = tempfile.mkdtemp(prefix='evid-', dir='/var/tmp')
+shutil.copytree('/verif/evidence', EVID_BACKUP + '/evidence')   # the committed evidence must describe the UNCHANGED tree: put it back afterwards
 try:
     for p in props + extra:
         c = subprocess.run(["./check", p, "--tier", tier], cwd="/verif", capture_output=True, text=True)
@@ -21,4 +24,5 @@ try:
             print("   ", l[:400])
 finally:
     subprocess.run(["git", "-C", "/repo", "checkout", "--", "."], check=True)
+    shutil.rmtree('/verif/evidence'); shutil.copytree(EVID_BACKUP + '/evidence', '/verif/evidence'); shutil.rmtree(EVID_BACKUP)
     print("reverted:", subprocess.run(["git", "-C", "/repo", "status", "--porcelain"], capture_output=True, text=True).stdout.strip() == "")
